@@ -2166,12 +2166,16 @@ class FileSet:
             start -= min(max_interval, start - datetime.min)
             end += min(max_interval, datetime.max - end)
 
+        # A fileset without files in this period simply has no matches:
         files1 = list(
-            self.find(start, end, filters=filters)
+            self.find(start, end, filters=filters, no_files_error=False)
         )
         files2 = list(
-            other.find(start, end, filters=other_filters)
+            other.find(start, end, filters=other_filters,
+                       no_files_error=False)
         )
+        if not files1 or not files2:
+            return
 
         # Convert the times (datetime objects) to microseconds (integer), the
         # resolution of datetime objects. Coarser units would move the end
